@@ -145,7 +145,7 @@ pub fn gen_case(gi: &GInfo, rule: usize, tape: &[u8]) -> (String, Form) {
 pub fn run(world: &World, ctx: &mut Ctx, dump_path: Option<&str>) -> Option<Value> {
     ctx.ev.rule = RULE.to_string();
     let pairs = super::pairs(world, &[]);
-    let total = ctx.tier.pick(120_000u64, 2_500_000u64);
+    let total = ctx.tier.pick(200_000u64, 3_000_000u64);
     let all_pairs = pairs.len();
     // the per-pair count must not depend on which subset of the corpus this binary holds
     let n = match std::env::var("VERIF_C09_PER_PAIR").ok().and_then(|s| s.parse().ok()) {
